@@ -159,6 +159,24 @@ def eems_cycles(ctx, model):
                 cons = rng.choice([("Sum", [("InFieldNames", [m, Name("Rd")])]), ("Copy", [("InFieldName", m)]), ("Normalize", [("InFieldName", m)])])
             cmds.append(("t%d" % j, cons[0], cons[1]))
         scs.append(Scenario(graphs.shuffled(rng, cmds), wd=tmp, libs=libs))
+    # loops that close through the second-written field of a two-field command, through a list that another command lists too, next to an unrelated
+    # component that has leaves - in every order of the commands
+    import itertools
+    rd = ("Rd", "EEMSRead", [("InFileName", "in.csv"), ("InFieldName", "a")])
+    rd2 = ("Rd2", "EEMSRead", [("InFileName", "in.csv"), ("InFieldName", "b")])
+    directed = [
+        [rd, ("X", "AMinusB", [("A", Name("Rd")), ("B", Name("X"))])],
+        [rd, ("X", "AMinusB", [("B", Name("X")), ("A", Name("Rd"))])],
+        [rd, ("X", "ADividedByB", [("A", Name("Rd")), ("B", Name("Y"))]), ("Y", "Copy", [("InFieldName", Name("X"))])],
+        [rd, ("X", "ADividedByB", [("A", Name("Y")), ("B", Name("Rd"))]), ("Y", "Copy", [("InFieldName", Name("X"))])],
+        [rd, ("T", "Sum", [("InFieldNames", [Name("Rd"), Name("X")])]), ("X", "Sum", [("InFieldNames", [Name("Y"), Name("Rd")])]), ("Y", "Sum", [("InFieldNames", [Name("X")])])],
+        [rd, ("T", "Maximum", [("InFieldNames", [Name("X"), Name("Rd")])]), ("X", "Sum", [("InFieldNames", [Name("Rd"), Name("X")])])],
+        [rd, rd2, ("U", "Sum", [("InFieldNames", [Name("Rd"), Name("Rd2")])]), ("X", "Copy", [("InFieldName", Name("Y"))]), ("Y", "Copy", [("InFieldName", Name("X"))])],
+        [rd, ("U", "Copy", [("InFieldName", Name("Rd"))]), ("X", "Normalize", [("InFieldName", Name("X"))])],
+    ]
+    for cmds in directed:
+        for perm in itertools.permutations(cmds):
+            scs.append(Scenario(list(perm), wd=tmp, libs=libs))
     for sc, ans in zip(scs, model.ask([sc.protocol(classes) for sc in scs])):
         res = progrun.run_impl(sc, recursion_limit=600)
         ctx.case(sc.source, sample={"source": sc.source[:400], "cyclic": True, "impl": progrun.impl_text(res)[:200], "model": ans[:200]})
